@@ -4,7 +4,7 @@
    (model/Bullets.v): which numbering definition (numId) and level (ilvl) a paragraph refers to - the input
    of every C08 theorem about list markers and counters.  Elements are read as in SourceFmt.v. *)
 From Coq Require Import List NArith ZArith Bool Arith Lia.
-From D2P Require Import Str Err Xml TableTypes Tables Fmt NumFmt Bullets Merge Collector Walk PyVal Source SourceBase SourceFmt SourceForms.
+From D2P Require Import Str Err Xml TableTypes Tables Fmt NumFmt Bullets Merge Collector Walk PyVal Source SourceBase SourceElem SourceForms.
 Import ListNotations.
 
 (* local names of elements and attributes hold no brace, down to depth d *)
